@@ -29,14 +29,16 @@ def cfg(maxlen, npart, rr, t, mut='none'):
             + ''.join(f'INVARIANT {i}\n' for i in INVS))
 
 
-def make_input(xs, npart, R, coord, dtype, cell=0.5):
+def make_input(xs, npart, R, coord, dtype, cell=0.5, wdtype=None):
     """lattice coordinate x -> x*cell on the partition axis; other axes carry a unique tag per particle"""
     n = len(xs)
     pos = np.empty((n, 3), dtype=dtype)
     for j in range(3):
         pos[:, j] = (np.arange(n) * 3 + j + 1) * 0.25
     pos[:, coord] = np.asarray(xs, dtype=np.float64) * cell
-    w = (np.arange(n) + 1).astype(dtype)
+    # weights carry their own dtype; float64 weights are not representable in float32 (a cast through the position dtype is visible)
+    wdtype = dtype if wdtype is None else wdtype
+    w = ((np.arange(n) + 1) * (1.0 + 2.0 ** -40)).astype(wdtype) if np.dtype(wdtype) == np.float64 else (np.arange(n) + 1).astype(wdtype)
     return pos, w, npart * R * cell
 
 
@@ -60,8 +62,10 @@ def judge(pos, w, box, npart, coord, sort, res, R=None, xs=None, ambiguous=False
         return 'an output row mixes coordinates of different particles'
     if (w is None) != (wsort is None):
         return 'weights returned although none were given (or vice versa)'
+    if w is not None and (wsort.dtype != w.dtype or wsort.shape != w.shape):
+        return f'weights returned with dtype/shape {wsort.dtype}/{wsort.shape}, given {w.dtype}/{w.shape}'
     if w is not None and n and not np.array_equal(wsort, w[tag]):
-        return 'weights are not aligned with the partitioned positions'
+        return 'weights are not aligned with the partitioned positions (or their values changed)'
     x = psort[:, coord].astype(np.float64)
     for s in range(npart):
         seg = x[starts[s]:starts[s + 1]]
@@ -143,7 +147,7 @@ def run(chk):
         full = (ci % 97 == 0)
         vs = variants if full else [variants[ci % len(variants)], variants[(ci * 7 + 3) % len(variants)]]
         for (coord, dt, hw, so) in vs:
-            pos, w, box = make_input(xs, npart, R, coord, dt)
+            pos, w, box = make_input(xs, npart, R, coord, dt, wdtype=[None, np.float64, np.float32][ci % 3])
             for t in (threads if full else [threads[(ci + coord) % len(threads)], 16 if ci % 2 else 1]):
                 res, bad = call(partition_parallel, pos, w if hw else None, npart, box, coord, t, so)
                 bad = bad or judge(pos, w if hw else None, box, npart, coord, so, res, expect_starts=c['starts'])
@@ -159,7 +163,7 @@ def run(chk):
                 nontriv += 1 if xs else 0
                 if bad:
                     chk.violation(key_of(bad, len(xs), t), f'xs={xs} np={npart} coord={coord} dtype={np.dtype(dt).name} weights={hw} sort={so} nthread={t}: {bad}',
-                                  dict(xs=xs, np=npart, R=R, coord=coord, dtype=np.dtype(dt).name, weights=hw, sort=so, nthread=t))
+                                  dict(xs=xs, np=npart, R=R, coord=coord, dtype=np.dtype(dt).name, wdtype=w.dtype.name, weights=hw, sort=so, nthread=t))
     chk.add_cases(nrun, nontrivial=nontriv, traces=nrun)
     chk.sample(dict(case=cases[len(cases) // 2]))
     chk.sample(dict(case=cases[-1]))
@@ -174,7 +178,7 @@ def run(chk):
         coord = int(rng.integers(0, 3))
         dt = [np.float32, np.float64][rep % 2]
         dyadic = rep % 3 != 0
-        pos, w, box = make_input(xs, npart, R, coord, dt, cell=0.5 if dyadic else 1.0 / 3)
+        pos, w, box = make_input(xs, npart, R, coord, dt, cell=0.5 if dyadic else 1.0 / 3, wdtype=[None, np.float64, np.float32][(rep // 4) % 3])
         if not dyadic:
             box = dt(npart * R / 3.0)
             box = float(box)
@@ -185,7 +189,7 @@ def run(chk):
         nt += 1
         if bad:
             chk.violation(key_of(bad, n, t) + ('' if dyadic else '-nondyadic'), f'random N={n} np={npart} coord={coord} nthread={t} sort={so} dyadic={dyadic}: {bad}',
-                          dict(xs=xs.tolist(), np=npart, R=R, coord=coord, dtype=np.dtype(dt).name, weights=hw, sort=so, nthread=t, dyadic=dyadic))
+                          dict(xs=xs.tolist(), np=npart, R=R, coord=coord, dtype=np.dtype(dt).name, wdtype=w.dtype.name, weights=hw, sort=so, nthread=t, dyadic=dyadic))
     chk.add_cases(nt, traces=nt)
     chk.part('twin_random', runs=nt)
     # ---- schedule replay on the real source
@@ -233,7 +237,7 @@ def replay(chk, path):
     d = json.load(open(path))
     p = d['payload']
     dt = np.dtype(p.get('dtype', 'float64')).type
-    pos, w, box = make_input(p['xs'], p['np'], p['R'], p.get('coord', 0), dt, cell=0.5 if p.get('dyadic', True) else 1.0 / 3)
+    pos, w, box = make_input(p['xs'], p['np'], p['R'], p.get('coord', 0), dt, cell=0.5 if p.get('dyadic', True) else 1.0 / 3, wdtype=(np.dtype(p['wdtype']).type if p.get('wdtype') else None))
     res, bad = call(partition_parallel, pos, w if p['weights'] else None, p['np'], box, p.get('coord', 0), p['nthread'], p.get('sort', False))
     bad = bad or judge(pos, w if p['weights'] else None, box, p['np'], p.get('coord', 0), p.get('sort', False), res, ambiguous=not p.get('dyadic', True))
     print('replay:', bad)
